@@ -502,4 +502,4 @@ def strict_counts(ctx):
     """'Any modification of any byte of a serialized encapsulation ... is rejected': the element counts are not absorbed by any
     transcript, so they are protected by strict parsing only — a reader that clamps or adjusts an announced count accepts a
     modified count byte (C13.announced-count-exact on the encapsulation and header readers)."""
-    c13.restricted(ctx, r'(core::Encapsulations|core::XEnc|encrypted_header::EncryptedHeader)$', [c13.announced_count_exact])
+    c13.restricted(ctx, r'(core::Encapsulations|core::XEnc|encrypted_header::EncryptedHeader)$', [c13.announced_count_exact, c13.read_keeps_every_element])
